@@ -274,3 +274,437 @@ def vc_array_writer():
 
 
 T.group("array_writer", vc_array_writer, [(ARR, "Array._to_buffer")], ["C03", "C05", "C01"])
+
+
+# ------------------------------------------------------------------------------------------------ setters (C10, C03)
+def vc_setters():
+    """Field.__set__ and Array.__setitem__ through a view (only HandleInv is known about the handle), for element types that are
+    written in place (no _update method: scalars, references): exactly one write, at the documented address of the addressed
+    element, of the element's own size -- hence inside the element's extent, which the layout groups show disjoint from every
+    sibling; read-only fields raise AttributeError before any write."""
+    import itertools
+    from contracts import capi as K
+
+    obs = []
+    its = []
+    STRUCT = T.STRUCT
+    # ---- struct fields
+    for n in range(1, 4):
+        for pattern in itertools.product((False, True), repeat=n):
+            lab = "".join("d" if d else "s" for d in pattern)
+            it = T.struct_env()
+            its.append(it)
+            it.class_home.update({"Struct": STRUCT, "NumpyScalar": "xobjects/scalar.py"})
+            i64 = T.int64_scalar()
+            it.extern_names.update({"Int64": i64, "object": T.ObjectBuiltin()})
+            XB.install_int64(it, i64)
+            try:
+                cls, F, tcs, pc = T.build_struct_class(it, pattern)
+                it.obligations = []
+                dyn = [k for k in range(n) if pattern[k]]
+                buf = XB.XBuf("buf")
+                o = fresh_int("offset")
+                con = T._contract(STRUCT, "Struct._from_buffer", [])
+                it.contract = T._contract(STRUCT, "Field.__set__", [])
+                hdr = F[dyn[0]].attrs["offset"] if dyn else None
+                pre = pc + [o >= 0, buf.cap >= 0, buf.cap < 2 ** 62]
+                total = fresh_int("object_size")
+                pre += [o + total <= buf.cap]
+                if dyn:
+                    pre += [hdr + 8 <= total]
+                else:
+                    pre += [total == cls.attrs["_size"]]
+                m0 = buf.mem
+                for st, out in it.exec_function(con, {"cls": cls, "buffer": buf, "offset": o}, pre=pre):
+                    h = out[1]
+                    n0 = len(it.obligations)
+                    for k in range(n):
+                        if pattern[k]:
+                            continue  # dynamically sized field types are rewritten through their own _update / size logic (C11 findings)
+                        fobj = F[k]
+                        fobj.attrs.setdefault("is_union", None)
+                        for ro in (False, True):
+                            fobj.attrs["readonly"] = ro
+                            stq = st.clone()
+                            val = SymObj("Value", {})
+                            rec0 = len(getattr(stq, "recorded", []))
+                            for st2, res in it.call_function(stq, FuncVal(STRUCT, "Field.__set__", fobj), [it._relocate(stq, h), val], {}, None):
+                                b = it._relocate(st2, buf)
+                                wr = [r for r in getattr(st2, "recorded", [])[rec0:] if r[0] == "write"]
+                                ob = lambda c, g: it.oblige(st2, "post", f"{c}[{lab}:f{k}{':readonly' if ro else ''}]", g if not isinstance(g, bool) else z3.BoolVal(g))
+                                if ro:
+                                    raised = res.__class__.__name__ == "_NoReturn" and st2.pending_raise[1] == "AttributeError"
+                                    ob("readonly_field_raises", bool(raised))
+                                    ob("readonly_field_not_written", len(wr) == 0 and z3.eq(b.mem, m0))
+                                    continue
+                                ob("one_write", len(wr) == 1)
+                                if len(wr) == 1:
+                                    r = wr[0]
+                                    ob("written_at_field_address", r[2] == o + fobj.attrs["offset"])
+                                    ob("written_size_is_field_size", r[3] == tcs[k].static_size)
+                                    ob("value_passed_through", getattr(r[4], "uid", None) == val.uid)
+                                    ob("frame_is_the_field_extent", T.forall_x(lambda x: z3.Implies(z3.Or(x < o + fobj.attrs["offset"], x >= o + fobj.attrs["offset"] + tcs[k].static_size),
+                                                                                                 b.mem[x] == m0[x])))
+                        fobj.attrs["readonly"] = False
+            except Unsupported as e:
+                vc_setters.undecided.append((lab, str(e)[:160]))
+            obs += it.obligations
+    # ---- array items (statically sized items, no _update)
+    for rank, mask in K.array_masks():
+        for order in T.perms(rank):
+            lab = f"{'x'.join('N' if m else 's' for m in mask)}:order{''.join(map(str, order))}"
+            it = T.new_interp()
+            its.append(it)
+            it.class_home.update({"Array": ARR, "NumpyScalar": "xobjects/scalar.py"})
+            i64 = T.int64_scalar()
+            it.extern_names = {"Int64": i64, "object": T.ObjectBuiltin()}
+            XB.install_int64(it, i64)
+            st0 = State()
+            cls = T.array_class(st0, rank, mask, True, order)
+            sp = cls.spec
+            w, D, ndyn = sp["w"], sp["D"], sp["ndyn"]
+            tc = T.TypeContractObj("Item", w, st0)
+            item = tc.as_symobj()
+            item.absent = {"_dtype", "_update"}
+            cls.attrs["_itemtype"] = item
+            buf = XB.XBuf("buf")
+            o = fresh_int("offset")
+            hdr_shape = []
+            j = 0
+            for k in range(rank):
+                if mask[k]:
+                    hdr_shape.append(XB.W8(buf.mem, o + 8 + 8 * j))
+                    j += 1
+                else:
+                    hdr_shape.append(sp["dims"][k])
+            n_items = T.prod(hdr_shape)
+            pre = list(st0.pc) + [o >= 0, buf.cap >= 0, buf.cap < 2 ** 62, o + D + w * n_items <= buf.cap] + [s >= 0 for s in hdr_shape]
+            dstr = T.doc_strides(hdr_shape, order, w)
+            if ndyn and rank > 1:
+                pre += [XB.W8(buf.mem, o + 8 + 8 * ndyn + 8 * k) == dstr[k] for k in range(rank)]
+            m0 = buf.mem
+            con = T._contract(ARR, "Array._from_buffer", [])
+            it.contract = T._contract(ARR, "Array.__setitem__", [])
+            try:
+                for st, out in it.exec_function(con, {"cls": cls, "buffer": buf, "offset": o}, pre=pre):
+                    h = out[1]
+                    it.obligations = [ob_ for ob_ in it.obligations if "__setitem__" in ob_.name]
+                    idx = tuple(fresh_int(f"i{k}") for k in range(rank))
+                    inr = z3.And(*[z3.And(0 <= i, i < s) for i, s in zip(idx, hdr_shape)])
+                    arg = idx if rank > 1 else idx[0]
+                    val = SymObj("Value", {})
+                    for in_range in (True, False):
+                        stq = st.clone()
+                        stq.assume(inr if in_range else z3.Not(inr))
+                        rec0 = len(getattr(stq, "recorded", []))
+                        for st2, res in it.call_function(stq, FuncVal(ARR, "Array.__setitem__", it._relocate(stq, h)), [arg, val], {}, None):
+                            b = it._relocate(st2, buf)
+                            wr = [r for r in getattr(st2, "recorded", [])[rec0:] if r[0] == "write"]
+                            ob = lambda c, g: it.oblige(st2, "post", f"{c}[{lab}]", g if not isinstance(g, bool) else z3.BoolVal(g))
+                            if not in_range:
+                                raised = res.__class__.__name__ == "_NoReturn" and st2.pending_raise[1] == "IndexError"
+                                ob("out_of_range_index_raises", bool(raised))
+                                ob("out_of_range_index_writes_nothing", len(wr) == 0 and z3.eq(b.mem, m0))
+                                continue
+                            addr = o + D + sum(i * s for i, s in zip(idx, dstr))
+                            ob("one_write", len(wr) == 1)
+                            if len(wr) == 1:
+                                r = wr[0]
+                                ob("written_at_item_address", r[2] == addr)
+                                ob("written_size_is_item_size", r[3] == w)
+                                ob("item_extent_inside_data_area", z3.And(addr >= o + D, addr + w <= o + D + w * n_items))
+                                ob("frame_is_the_item_extent", T.forall_x(lambda x: z3.Implies(z3.Or(x < addr, x >= addr + w), b.mem[x] == m0[x])))
+            except Unsupported as e:
+                vc_setters.undecided.append((lab, str(e)[:160]))
+            obs += it.obligations
+    vc_setters.interps = its
+    return obs
+
+
+T.group("setters", vc_setters, [(T.STRUCT, "Field.__set__"), (ARR, "Array.__setitem__"), (T.STRUCT, "Field.get_offset"), (ARR, "bound_check"), (ARR, "get_offset")],
+        ["C10", "C03", "C11"])
+
+
+# ------------------------------------------------------------------------------------------------ Array._inspect_args (static items)
+class ShapedValue:
+    """an array-like initial value of which only the shape is observed (numpy arrays, xobject arrays)"""
+
+    def __init__(self, shape):
+        self.shape = shape
+
+    def has_attr(self, attr):
+        return attr == "shape"
+
+    def getattr(self, interp, st, attr, node):
+        if attr == "shape":
+            yield st, self.shape
+            return
+        raise Unsupported(f"value.{attr}")
+
+
+def vc_array_inspect_args():
+    """Array._inspect_args for arrays of statically sized items: ArrayInfoInv -- the Info handed to _to_buffer / used by __init__
+    carries the documented geometry: shape (class dims where static, the value's where dynamic), strides = documented strides of
+    that shape and the class's axis order, size = slot(D + itemsize * prod(shape)); a value whose shape disagrees with a static
+    dimension is refused with ValueError (C11); dimensions given as integers produce the same geometry with no value."""
+    from contracts import capi as K
+
+    obs = []
+    its = []
+    con = T._contract(ARR, "Array._inspect_args", [])
+    for rank, mask in K.array_masks():
+        ndyn = sum(mask)
+        if ndyn == 0:
+            continue  # static shape and static items: size is a class constant (ArrayLayout), nothing is computed from the value
+        for order in T.perms(rank):
+            for form in ("array_value", "dimensions"):
+                if form == "dimensions" and list(order) != sorted(order):
+                    continue  # the dimension form differs from the value form only in where the shape comes from
+                lab = f"{'x'.join('N' if m else 's' for m in mask)}:order{''.join(map(str, order))}:{form}"
+                it = T.new_interp()
+                it.feas_timeout_ms = 80
+                its.append(it)
+                it.class_home.update({"Array": ARR})
+
+                def construct_Info(st, args, kwargs, node):
+                    o = SymObj("Info", dict(kwargs))
+                    yield st, o
+                it.construct_Info = construct_Info
+                st0 = State()
+                cls = T.array_class(st0, rank, mask, True, order)
+                sp = cls.spec
+                w, D = sp["w"], sp["D"]
+                vshape = tuple(fresh_int(f"v{k}") for k in range(rank))
+                pre = list(st0.pc) + [T.SLOT_AX] + [s >= 0 for s in vshape]
+                if form == "array_value":
+                    args = (ShapedValue(vshape),)
+                else:
+                    args = tuple(vshape[k] for k in range(rank) if mask[k])
+                want_shape = [vshape[k] if mask[k] else sp["dims"][k] for k in range(rank)]
+                try:
+                    for st, out in it.exec_function(con, {"cls": cls, "args": args}, pre=pre):
+                        ob = lambda c, g: it.oblige(st, "post", f"{c}[{lab}]", g if not isinstance(g, bool) else z3.BoolVal(g))
+                        agree = z3.And(*[vshape[k] == sp["dims"][k] for k in range(rank) if not mask[k]]) if (form == "array_value" and not all(mask)) else z3.BoolVal(True)
+                        if out is not None and out[0] == "raise":
+                            it.oblige(st, "raises", f"{out[1]}.only_for_a_shape_that_disagrees[{lab}]", z3.And(z3.BoolVal(out[1] == "ValueError"), z3.Not(agree)), out[2])
+                            continue
+                        info = out[1]
+                        a = info.attrs
+                        ob("accepted_only_if_static_dimensions_agree", agree)
+                        shp = a.get("shape")
+                        shp = shp.items if isinstance(shp, PList) else (list(shp) if isinstance(shp, tuple) else None)
+                        ob("shape_present", shp is not None and len(shp) == rank)
+                        if shp is None or len(shp) != rank:
+                            continue
+                        for k in range(rank):
+                            ob(f"shape{k}", shp[k] == want_shape[k])
+                        ds = T.doc_strides(want_shape, order, w)
+                        strd = a.get("strides")
+                        ok = isinstance(strd, tuple) and len(strd) == rank
+                        ob("strides_present", ok)
+                        if ok:
+                            for k in range(rank):
+                                ob(f"stride{k}_documented", strd[k] == ds[k])
+                        ob("size_is_slot_of_header_plus_items", a.get("size") == T.slot_int(D + w * T.prod(want_shape)))
+                        ob("items", a.get("items") == T.prod(want_shape))
+                        od = a.get("order")
+                        ob("order", (od.items if isinstance(od, PList) else list(od)) == list(order))
+                        if form == "dimensions":
+                            ob("no_value", a.get("value") is None)
+                        else:
+                            ob("value_kept", a.get("value") is args[0])
+                except Unsupported as e:
+                    vc_array_inspect_args.undecided.append((lab, str(e)[:160]))
+                obs += it.obligations
+    vc_array_inspect_args.interps = its
+    return obs
+
+
+T.group("array_inspect_args", vc_array_inspect_args, [(ARR, "Array._inspect_args"), (ARR, "get_shape_from_array"), (ARR, "get_strides"), (ARR, "mk_order")],
+        ["C05", "C03", "C11", "C01"])
+
+
+# ------------------------------------------------------------------------------------------------ constructor handle == view (C06)
+def vc_handle_equals_view():
+    """Array.__init__ (statically sized items): the handle it returns carries exactly the geometry a view rebuilt from (buffer,
+    offset) reads back.  _inspect_args, allocate_on_buffer and _to_buffer are used through their contracts proved in the groups
+    array_inspect_args / allocate_on_buffer / array_writer (Info with the documented geometry; a region of info.size bytes; header
+    words at the documented positions); then the real _from_buffer runs on the resulting memory and every cached attribute of the
+    two handles is compared."""
+    from contracts import capi as K
+
+    obs = []
+    its = []
+    con = T._contract(ARR, "Array.__init__", [])
+    for rank, mask in K.array_masks():
+        ndyn = sum(mask)
+        for order in T.perms(rank):
+            lab = f"{'x'.join('N' if m else 's' for m in mask)}:order{''.join(map(str, order))}"
+            it = T.new_interp()
+            its.append(it)
+            it.class_home.update({"Array": ARR, "NumpyScalar": "xobjects/scalar.py"})
+            i64 = T.int64_scalar()
+            it.extern_names = {"Int64": i64, "object": T.ObjectBuiltin()}
+            XB.install_int64(it, i64)
+            st0 = State()
+            cls = T.array_class(st0, rank, mask, True, order)
+            sp = cls.spec
+            w, D = sp["w"], sp["D"]
+            shape = [sp["dims"][k] if not mask[k] else fresh_int(f"n{k}") for k in range(rank)]
+            strides = T.doc_strides(shape, order, w)
+            static_obj = cls.attrs["_size"] is not None
+            size = cls.attrs["_size"] if static_obj else T.slot_int(D + w * T.prod(shape))
+            buf = XB.XBuf("buf")
+            off = fresh_int("allocated_offset")
+            info = SymObj("Info", {"size": size, "shape": tuple(shape), "strides": tuple(strides), "order": PList(list(order)), "value": None,
+                                   "items": T.prod(shape), "dshape": PList([k for k in range(rank) if mask[k]])})
+            info.closed = True
+
+            def ov_inspect(i, st, f, a, k, n, info=info):
+                yield st, info
+
+            def ov_alloc(i, st, f, a, k, n, buf=buf, off=off):
+                yield st, (i._relocate(st, buf), off)
+
+            def ov_to_buffer(i, st, f, a, k, n, shape=shape, strides=strides, size=size, mask=mask, ndyn=ndyn, rank=rank, static_obj=static_obj):
+                # contract of Array._to_buffer (group array_writer): header words at the documented positions, nothing outside the object
+                b = i._relocate(st, a[0])
+                o = a[1]
+                m = z3.Array(fresh_name("written"), z3.IntSort(), z3.IntSort())
+                b.mem = m
+                if not static_obj:
+                    st.assume(XB.W8(m, o) == size)
+                j = 0
+                for d in range(rank):
+                    if mask[d]:
+                        st.assume(XB.W8(m, o + 8 + 8 * j) == shape[d])
+                        j += 1
+                if ndyn and rank > 1:
+                    for d in range(rank):
+                        st.assume(XB.W8(m, o + 8 + 8 * ndyn + 8 * d) == strides[d])
+                yield st, None
+            it.overrides[(ARR, "Array._inspect_args")] = ov_inspect
+            it.overrides[("xobjects/typeutils.py", "allocate_on_buffer")] = ov_alloc
+            it.overrides[(ARR, "Array._to_buffer")] = ov_to_buffer
+            selfo = SymObj("instance", {"__class__": cls})
+            selfo.closed = True
+            pre = list(st0.pc) + [T.SLOT_AX, off >= 0, off + size <= buf.cap, buf.cap < 2 ** 62] + [s >= 0 for s in shape]
+            try:
+                for st, out in it.exec_function(con, {"self": selfo, "args": (SymObj("Value", {}),), "_context": None, "_buffer": None, "_offset": None}, pre=pre):
+                    if out is not None and out[0] == "raise":
+                        it.oblige(st, "raises", f"never[{lab}]", False, out[2])
+                        continue
+                    h = it._relocate(st, selfo)
+                    b = it._relocate(st, buf)
+                    it.contract = T._contract(ARR, "Array._from_buffer", [])
+                    for st2, v in it.call_function(st.clone(), FuncVal(ARR, "Array._from_buffer", cls), [b, off], {}, None):
+                        ob = lambda c, g: it.oblige(st2, "post", f"{c}[{lab}]", g if not isinstance(g, bool) else z3.BoolVal(g))
+                        hh = it._relocate(st2, h)
+                        ob("same_buffer_and_offset", getattr(hh.attrs.get("_buffer"), "uid", 0) == getattr(v.attrs.get("_buffer"), "uid", 1) and hh.attrs.get("_offset") is v.attrs.get("_offset"))
+                        for attr in ("_size", "_shape", "_strides"):
+                            ha, va = hh.attrs.get(attr), v.attrs.get(attr)
+                            ob(f"{attr}_present_in_both_or_neither", (ha is None) == (va is None))
+                            if ha is None or va is None:
+                                continue
+                            hs = ha.items if isinstance(ha, PList) else (list(ha) if isinstance(ha, tuple) else [ha])
+                            vs = va.items if isinstance(va, PList) else (list(va) if isinstance(va, tuple) else [va])
+                            ob(f"{attr}_same_length", len(hs) == len(vs))
+                            for kk, (x, y) in enumerate(zip(hs, vs)):
+                                ob(f"{attr}{kk}_equal", x == y)
+                    it.contract = con
+            except Unsupported as e:
+                vc_handle_equals_view.undecided.append((lab, str(e)[:160]))
+            obs += it.obligations
+    vc_handle_equals_view.interps = its
+    return obs
+
+
+T.group("handle_equals_view", vc_handle_equals_view, [(ARR, "Array.__init__"), (ARR, "Array._from_buffer")], ["C06"])
+
+
+# ------------------------------------------------------------------------------------------------ copies of structs (C09)
+def vc_struct_copy():
+    """Struct._to_buffer with a same-class object as value (copy-construction), classes of <= 3 fields:
+    reference-free class  -> one byte copy of exactly value._size bytes from the source object to the new place (TC4: a
+                             reference-free object is position independent, so the copy decodes to the same value);
+    class with references -> never a byte copy: every field is rebuilt through its own type from the value read out of the
+                             source (references are re-encoded relative to their new slot by Ref._to_buffer, group `ref`).
+    In both cases nothing outside the new object's extent changes and the source buffer is not written."""
+    import itertools
+
+    obs = []
+    its = []
+    STRUCT = T.STRUCT
+    for n in range(1, 4):
+        for pattern in itertools.product((False, True), repeat=n):
+            for has_refs in (False, True):
+                lab = "".join("d" if d else "s" for d in pattern) + (":with_refs" if has_refs else ":ref_free")
+                it = T.struct_env()
+                its.append(it)
+                it.class_home.update({"Struct": STRUCT, "NumpyScalar": "xobjects/scalar.py"})
+                i64 = T.int64_scalar()
+                it.extern_names.update({"Int64": i64, "object": T.ObjectBuiltin()})
+                XB.install_int64(it, i64)
+
+                def construct_Info(st, args, kwargs, node):
+                    o = SymObj("Info", dict(kwargs))
+                    o.closed = True
+                    yield st, o
+                it.construct_Info = construct_Info
+                try:
+                    cls, F, tcs, pc = T.build_struct_class(it, pattern)
+                    it.obligations = []
+                    cls.attrs["_has_refs"] = has_refs
+                    dyn = [k for k in range(n) if pattern[k]]
+                    hdr = F[dyn[0]].attrs["offset"] if dyn else None
+                    buf = XB.XBuf("dest")
+                    sbuf = XB.XBuf("source")
+                    o, so, ssize = fresh_int("offset"), fresh_int("source_offset"), fresh_int("source_size")
+                    offs = PDict({k: fresh_int(f"src_off{k}") for k in dyn})
+                    src = SymObj("instance", {"__class__": cls, "_buffer": sbuf, "_offset": so, "_size": ssize, "_offsets": offs})
+                    src.closed = True
+                    pre = pc + [o >= 0, so >= 0, ssize >= 0, so + ssize <= sbuf.cap, o + ssize <= buf.cap, buf.cap < 2 ** 62, sbuf.cap < 2 ** 62, ssize < 2 ** 62]
+                    for k in dyn:
+                        # WellFormed source: its k-th dynamic part has some size s_k >= 8 and lies inside the source object
+                        sk = fresh_int(f"part_size{k}")
+                        tcs[k].SZ = (lambda sk: (lambda uid: sk))(sk)
+                        pre += [sk >= 8, offs.items[k] + sk <= ssize]
+                    if dyn:
+                        # HandleInv of the source: cached size and offsets agree with its bytes; its parts lie inside it
+                        pre += [XB.W8(sbuf.mem, so) == ssize, ssize >= hdr + 8]
+                        pre += [offs.items[k] == XB.W8(sbuf.mem, so + F[k].attrs["offset"]) for k in dyn[1:]]
+                        pre += [z3.And(offs.items[k] >= hdr, offs.items[k] + 8 <= ssize, offs.items[k] < 2 ** 62) for k in dyn]
+                        pre += [offs.items[dyn[0]] == XB.W8(sbuf.mem, so + hdr)] if False else []
+                    else:
+                        pre += [ssize == cls.attrs["_size"]]
+                    m0, s0 = buf.mem, sbuf.mem
+                    con = T._contract(STRUCT, "Struct._to_buffer", [])
+                    it.contract = con
+                    for st, out in it.exec_function(con, {"cls": cls, "buffer": buf, "offset": o, "value": src, "info": None}, pre=pre):
+                        if out is not None and out[0] == "raise":
+                            it.oblige(st, "raises", f"never[{lab}]", False, out[2])
+                            continue
+                        b = it._relocate(st, buf)
+                        sb = it._relocate(st, sbuf)
+                        ob = lambda c, g: it.oblige(st, "post", f"{c}[{lab}]", g if not isinstance(g, bool) else z3.BoolVal(g))
+                        wr = [r for r in getattr(st, "recorded", []) if r[0] == "write"]
+                        ob("source_buffer_not_written", z3.eq(sb.mem, s0))
+                        if not has_refs:
+                            ob("no_field_rebuilt", len(wr) == 0)
+                            ob("bytes_copied", T.forall_x(lambda x: z3.Implies(z3.And(0 <= x, x < ssize), b.mem[o + x] == s0[so + x])))
+                            ob("frame", T.forall_x(lambda x: z3.Implies(z3.Or(x < o, x >= o + ssize), b.mem[x] == m0[x])))
+                        else:
+                            ob("every_field_rebuilt_through_its_type", sorted(r[1] for r in wr) == [f"T{k}" for k in range(n)])
+                            rd = [r for r in getattr(st, "recorded", []) if r[0] == "read"]
+                            ob("field_values_read_from_the_source", len(rd) == n and all(getattr(r[2], "uid", None) == sbuf.uid for r in rd))
+                            if dyn:
+                                ob("size_word", XB.W8(b.mem, o) == ssize) if False else None
+                except Unsupported as e:
+                    vc_struct_copy.undecided.append((lab, str(e)[:160]))
+                obs += [x for x in it.obligations if x is not None]
+    vc_struct_copy.interps = its
+    return obs
+
+
+T.group("struct_copy", vc_struct_copy, [(T.STRUCT, "Struct._to_buffer"), (T.STRUCT, "MetaStruct.__new__.<locals>._inspect_args"), (T.STRUCT, "Struct.__contains__"),
+                                       (T.STRUCT, "Struct.__getitem__"), (T.STRUCT, "Field.value_from_args")], ["C09", "C03"])
